@@ -37,16 +37,18 @@ Traces == JsonDeserialize(IOEnv.TRACE_FILE)
 U == 1000000000
 Tol == 50
 
-VARIABLES tid, l, v0r, v0e, verdict, drift, done
-vars == <<tid, l, v0r, v0e, verdict, drift, done>>
+VARIABLES tid, l, R2, EC,   \* R2Int / EssCleared of the trace's base chains, evaluated once (in Init)
+          v0r, v0e, verdict, drift, done
+vars == <<tid, l, R2, EC, v0r, v0e, verdict, drift, done>>
 None == <<>>       \* no base value recorded yet (a logged value has at least one limb)
 
 T == Traces[tid]
 WellFormed == IsChains(T.chains)
-R2 == R2Int(T.chains)
-EC == EssCleared(T.chains)
 
 Init == /\ tid \in 1..Len(Traces) /\ l = 1 /\ v0r = None /\ v0e = None
+        /\ R2 = (IF IsChains(Traces[tid].chains) THEN R2Int(Traces[tid].chains) ELSE Undef)
+        /\ EC = (IF IsChains(Traces[tid].chains) THEN EssCleared(Traces[tid].chains)
+                 ELSE [def |-> FALSE, bnd |-> FALSE, num |-> <<0>>, den |-> <<1>>])
         /\ verdict = "ok" /\ drift = "" /\ done = FALSE
 
 JudgeRhat(e) ==
@@ -71,7 +73,7 @@ JudgeM(e) ==
 
 Step ==
   /\ ~done
-  /\ IF l > Len(T.events) THEN done' = TRUE /\ UNCHANGED <<tid, l, v0r, v0e, verdict, drift>>
+  /\ IF l > Len(T.events) THEN done' = TRUE /\ UNCHANGED <<tid, l, R2, EC, v0r, v0e, verdict, drift>>
      ELSE LET e == T.events[l]
               j == JudgeP(e)
               m == IF drift = "" THEN JudgeM(e) ELSE drift
@@ -79,7 +81,7 @@ Step ==
              /\ drift' = m
              /\ done' = (j # "ok")
              /\ l' = l + 1
-             /\ UNCHANGED tid
+             /\ UNCHANGED <<tid, R2, EC>>
              /\ v0r' = IF j = "ok" /\ e.fn = "rhat" /\ e.ident /\ e.res = "ok" THEN e.v ELSE v0r
              /\ v0e' = IF j = "ok" /\ e.fn = "ess" /\ e.ident /\ e.res = "ok" THEN e.v ELSE v0e
 
